@@ -230,6 +230,28 @@ def packet_must_accept(F, res, d, chunk_fn):
                         good = good and solver.entails(st.pc + list(conj), flit(ge(view.end, inp.start + inp.length() - pad)))
         res.ob(good, "sdes-walk", d, "Sdes: each chunk is parsed from a view that starts at the walk's offset and reaches (at least) len - padding", detail=repr(view)[:200], pc=st.pc)
         n += 1
+    # (i') what the walk parses is what the packet yields: each chunk the chunk parser returns is appended, in walk order, to
+    # the collection that the public chunk iterator traverses from its start
+    acc = [it["def"] for it in Disc(F).inherent(next(a for a in F.adts if d.startswith("<" + a))) if it["name"] == "chunks"] \
+        if any(d.startswith("<" + a) for a in F.adts) else []
+    res.ob(bool(acc), "anchor", "Sdes::chunks", "public chunk iterator exists")
+    for s, k, v in outs:
+        if not (k == "val" and isinstance(v, StructV) and v.variant == "Ok" and isinstance(v.fields.get("0"), StructV)):
+            continue
+        if not solver.feasible(s.pc, [ge(inp.length(), 5)]):
+            continue        # header-only packet: no chunk
+        sd = v.fields["0"]
+        colls = [x for x in sd.fields.values() if isinstance(x, CollV)]
+        pushed = [(c, val) for c in colls for pc_, val, ex_, how in s.colls.get(c.seq, ()) if how == "push" and isinstance(val, StructV) and
+                  any(isinstance(x, IntV) and any(str(a[1]).startswith("chunk-ssrc") for a in x.l.t if a[0] == "opq") for x in val.fields.values())]
+        res.ob(len(pushed) == 1, "sdes-walk", d, "Sdes: every chunk the walk parses is appended (once, in walk order) to the packet's chunk list",
+               detail=f"{len(pushed)} append(s) of the chunk parser's result per walk step", pc=s.pc)
+        n += 1
+        for m in acc:
+            for s2, k2, r in I.inline(m, None, s.clone(), [sd]):
+                good = isinstance(r, IterV) and r.seq[0] == "coll" and pushed and r.seq[1].seq == pushed[0][0].seq and lin(r.pos) == lin(0)
+                res.ob(bool(good), "sdes-walk", m, "Sdes::chunks() traverses exactly that list from its first element", detail=repr(r)[:160], pc=s2.pc)
+                n += 1
     # (ii) no rejection of its own on a well-framed packet
     for fs, pad in wf_cases(H, "Sdes"):
         for s, k, v in outs:
